@@ -196,10 +196,13 @@ func C09(ctx *core.Ctx) {
 				}
 			}
 		}
-		var al *ssa.Alloc
+		var al ssa.Value
 		ssax.Instrs(rr, func(in ssa.Instruction) {
 			if a, ok := in.(*ssa.Alloc); ok && ssax.TypeNamed(a.Type(), "", "FContextImpl") {
 				al = a
+			}
+			if c, ok := in.(*ssa.Call); ok && FreshBase(c) && ssax.TypeNamed(c.Type(), "", "FContextImpl") {
+				al = c
 			}
 		})
 		if headers == nil || al == nil {
@@ -214,7 +217,7 @@ func C09(ctx *core.Ctx) {
 					if tup, k := ExtractOf(c.Common.Args[1], 0); k {
 						if lk, k2 := tup.(*ssa.Lookup); k2 && lk.CommaOk && ssax.Strip(lk.X) == headers {
 							if s, k3 := ConstString(lk.Index); k3 && s == opid {
-								if mi, k4 := c.Common.Args[0].(*ssa.MakeInterface); k4 && ssax.Strip(mi.X) == ssa.Value(al) {
+								if mi, k4 := c.Common.Args[0].(*ssa.MakeInterface); k4 && ssax.Strip(mi.X) == al {
 									okID = true
 								}
 							}
@@ -261,8 +264,8 @@ func C09(ctx *core.Ctx) {
 			for _, c := range ssax.Calls(rr) {
 				if c.ShortName() == "AddResponseHeader" {
 					args := c.Args()
-					if k, isC := ConstString(args[1]); isC && k == cid && ssax.Strip(args[0]) == ssa.Value(al) {
-						if cc, isCall := CallValue(args[2]); isCall && cc.ShortName() == "CorrelationID" && ssax.Strip(cc.Args()[0]) == ssa.Value(al) {
+					if k, isC := ConstString(args[1]); isC && k == cid && ssax.Strip(args[0]) == al {
+						if cc, isCall := CallValue(args[2]); isCall && cc.ShortName() == "CorrelationID" && ssax.Strip(cc.Args()[0]) == al {
 							okCid = true
 						}
 					}
